@@ -11,7 +11,7 @@ GATES = {
     'quick': {'evaluations': 6000, 'created_meta_items': 1800, 'created_comments': 1200, 'raw_items_inserted': 600, 'from_value_meta': 400,
               'entry_classes_seen': 13, 'layout:none': 300, 'layout:uniform': 300, 'layout:tabs': 100, 'layout:with-comments': 200,
               'layout:non-uniform': 100, 'meta_view_read_before_indent_by': 1500, 'reconfigured_between_edits': 1000,
-              'meta_cleared_before_insert': 200},
+              'meta_cleared_before_insert': 200, 'existing_comment_updates': 150},
     'thorough': {'evaluations': 120000, 'entry_classes_seen': 13},
 }
 RULE = ('case = one entry of one of the 12 entry classes (or a posting inside a transaction) parsed from text with a chosen meta layout '
@@ -44,7 +44,8 @@ def make_doc(r):
     for i in range(n):
         ind = base + unit + (' ' * i if layout == 'non-uniform' else '')
         if layout == 'with-comments' and r.random() < 0.6:
-            lines.append(ind + '; c' + str(i))
+            # a comment above an item, sometimes indented differently from the item it belongs to
+            lines.append(ind + r.choice(['', '', '  ', '\t']) + '; c' + str(i))
         lines.append(ind + f'k{i}: "v{i}"' + r.choice(['', ' ; i']))
     if layout == 'with-comments' and lines and r.random() < 0.5:
         lines.append(base + unit + '; tail')
@@ -159,6 +160,19 @@ def run_case(col, r, idx):
                 kind, m = r.choice(cands)
                 side = r.choice(['leading_comment', 'trailing_comment'])
                 if getattr(m, side) is not None:
+                    # an existing comment gets a new text: its line keeps its own indentation
+                    old = getattr(m, 'raw_' + side)
+                    old_indent = old.indent
+                    val = r.choice(['', 'new text', 'two\nlines', ''])
+                    setattr(m, side, val)
+                    cm = getattr(m, 'raw_' + side)
+                    col.ev()
+                    col.count('existing_comment_updates')
+                    col.nontrivial(text, path, 'comment-update', kind, side, val, step)
+                    if cm is None or cm.indent != old_indent:
+                        col.violation(f'existing-comment-indent-changed:{kind}:{side}', f'{side} := {val!r} on a {kind} whose comment was indented '
+                                      f'{old_indent!r}: the comment line is now indented {getattr(cm, "indent", None)!r}', dict(wit, after=common.pr(f)))
+                        return
                     continue
                 val = r.choice(['c', 'two\nlines', ''])
                 setattr(m, side, val)
